@@ -259,6 +259,52 @@ func runC02(c *core.Ctx) {
 		}
 		c.Seen(k.Expect != "valid", []byte(k.Query), []byte(k.Srcs[0]))
 	})
+	// the complete small-scope family under the default rules and under the set with the four
+	// suggestion-free variants in place of their standard rules; the scale family (implementation
+	// only: the model answers wide documents slowly) under both sets: no panic, and a second per 4 KiB
+	ssStride := 400
+	if !c.Quick {
+		ssStride = 20
+	}
+	ss := SmallScope(ssStride)
+	idd := IntrospectionDepthDocs()
+	ss = append(ss, idd...)
+	c.Pool.ParFor(len(ss), func(w, i int) {
+		k := ss[i]
+		for _, rs := range []string{"*", NoSuggestSet} {
+			args := valArgs(rs, k)
+			impl := c.Impl(w, "val", args...)
+			if strings.HasPrefix(impl, "panic") {
+				c.ReportOracle("validate-panic", map[string]interface{}{"op": "val", "args": hexArgs(args), "schema": k.Srcs, "query": k.Query, "rules": rs, "implementation": impl})
+				return
+			}
+			v, cur, none := c.Tie(w, "val", impl, args...)
+			if v == core.Violation {
+				c.Report(w, "val", thm, args, impl, cur, none)
+			}
+		}
+		c.Seen(true, []byte(k.Query), []byte(k.Srcs[0]))
+	})
+	c.Count("small_scope_documents", int64(len(ss)))
+	scale := ScaleDocs()
+	c.Pool.ParFor(len(scale), func(w, i int) {
+		k := scale[i]
+		for _, rs := range []string{"*", NoSuggestSet} {
+			args := valArgs(rs, k)
+			t0 := time.Now()
+			impl := c.Impl(w, "val", args...)
+			el := time.Since(t0)
+			if strings.HasPrefix(impl, "panic") {
+				c.ReportOracle("validate-panic", map[string]interface{}{"op": "val", "args": hexArgs(args), "schema": k.Srcs, "query": k.Query[:min(300, len(k.Query))], "rules": rs, "implementation": impl[:min(300, len(impl))]})
+				return
+			}
+			if el.Seconds() > 1.0+float64(len(k.Query))/4096.0 {
+				c.ReportOracle("validate-slow", map[string]interface{}{"op": "val", "args": hexArgs(args), "query": k.Query[:min(300, len(k.Query))], "seconds": el.Seconds(), "bytes": len(k.Query)})
+			}
+		}
+	})
+	c.Count("scale_documents", int64(len(scale)))
+	c.Evals += int64(2 * (len(ss) + len(scale)))
 	// adversarial families: time of the implementation (measured, not proved) and agreement with the model
 	adv := adversarial(sizes)
 	prev := map[string][]float64{}
